@@ -30,17 +30,19 @@ class JobResult:
         self.failed = []           # obligations refuted
 
 
-def cbmc_cmd(job, trace=False):
+def cbmc_cmd(job, trace=False, props=()):
     sat = job.mode in ('BV', 'BVN')
     cmd = ['cbmc', job.path, '--function', 'harness', '-I', STUBS, '--no-standard-checks']
     if sat:
         cmd += ['--bounds-check', '--pointer-check', '--div-by-zero-check', '--signed-overflow-check',
                 '--unsigned-overflow-check', '--conversion-check', '--pointer-overflow-check']
     else:
-        cmd += ['--z3', '--slice-formula']
+        cmd += ['--z3'] + ([] if trace else ['--slice-formula'])
     cmd += job.flags
     if trace:
         cmd += ['--trace']
+    for p in props:
+        cmd += ['--property', p]
     return cmd
 
 
@@ -72,8 +74,9 @@ def run_job(job, trace_on_fail=True):
     parse(r, out, rc)
     if r.status == 'failed' and trace_on_fail:
         try:
-            p = subprocess.run(cbmc_cmd(job, trace=True), stdout=subprocess.PIPE, stderr=subprocess.STDOUT,
-                               env=env, timeout=job.timeout * 2, preexec_fn=_limits)
+            # counterexamples: unsliced formula (so that all inputs appear), only the refuted obligations
+            p = subprocess.run(cbmc_cmd(job, trace=True, props=[f[0] for f in r.failed[:4]]), stdout=subprocess.PIPE,
+                               stderr=subprocess.STDOUT, env=env, timeout=job.timeout * 2, preexec_fn=_limits)
             r.trace = p.stdout.decode(errors='replace')
         except subprocess.TimeoutExpired:
             r.trace = ''
@@ -150,19 +153,36 @@ def parse(r, out, rc):
     r.status = 'failed' if failed else 'ok'
 
 
-def trace_inputs(trace, limit=60):
-    """nondeterministic inputs of the harness from a plain-text --trace (assignments in function harness)"""
+def trace_inputs(trace, prop_id=None, limit=200):
+    """initial values of the harness inputs from a plain-text --trace.  The trace of the given
+    property id is used (cbmc prints one trace per failed property)."""
+    sections = re.split(r'(?m)^Trace for ([^\n:]+):\s*$', trace)
+    body = trace
+    if len(sections) > 1:
+        pairs = list(zip(sections[1::2], sections[2::2]))
+        body = pairs[0][1]
+        for pid, txt in pairs:
+            if prop_id and pid.strip() == prop_id:
+                body = txt
+                break
     vals = []
+    seen = set()
     cur_fn = None
-    lines = trace.split('\n')
-    for i, ln in enumerate(lines):
+    for ln in body.split('\n'):
         m = re.match(r'^State \d+ file \S+ function (\w+) line (\d+)', ln)
         if m:
             cur_fn = m.group(1)
             continue
-        if cur_fn == 'harness' and '=' in ln and not ln.startswith('-') and not ln.startswith('State'):
-            s = ln.strip()
-            s = re.sub(r'\s*\([01 ]+\)$', '', s)
-            if s and not s.startswith('verif_thrown'):
-                vals.append(s)
+        if cur_fn != 'harness':
+            continue
+        m = re.match(r'^\s+([A-Za-z_][\w.\[\]>-]*(?:\[[^\]]*\])*)=(-?[\d./eE+-]+|TRUE|FALSE)[a-zA-Z]*(?: \(.*\))?\s*$', ln)
+        if not m:
+            continue
+        lhs, val = m.group(1), m.group(2)
+        if lhs.startswith(('verif_ret', 'return_value', 'verif_old', 'verif_fr_', 'verif_thrown', 'verif_rv')):
+            continue
+        if lhs in seen:
+            continue
+        seen.add(lhs)
+        vals.append('%s=%s' % (lhs, val))
     return vals[:limit]
